@@ -78,8 +78,28 @@ func solve(query string, file string, timeoutS int, seed int, all bool) *SolveRe
 	ctx, cancel := context.WithCancel(context.Background())
 	defer cancel()
 	ch := make(chan *SolveResult, len(solvers))
-	for _, s := range solvers {
-		go func(s solverDef) { ch <- runSolver(ctx, s, file, timeoutS, seed) }(s)
+	// staggered race: most goals are decided by the first back end within a fraction of a
+	// second; the other two are started only if it has not answered by then (quick tier)
+	first := make(chan struct{})
+	for i, s := range solvers {
+		go func(i int, s solverDef) {
+			if i > 0 && !all {
+				select {
+				case <-first:
+					ch <- &SolveResult{Status: "unknown", Solver: s.name, Output: "not started: already decided"}
+					return
+				case <-time.After(1200 * time.Millisecond):
+				case <-ctx.Done():
+					ch <- &SolveResult{Status: "unknown", Solver: s.name, Output: "not started: already decided"}
+					return
+				}
+			}
+			r := runSolver(ctx, s, file, timeoutS, seed)
+			if i == 0 && r.Status != "unknown" {
+				close(first)
+			}
+			ch <- r
+		}(i, s)
 	}
 	var results []*SolveResult
 	var best *SolveResult
